@@ -25,7 +25,7 @@ RULE = ("one PRNG; 45 % fold cases: conditions built from + - * (n-ary), unary -
         "top-level conjunctions of filesize comparisons (both operand orders, integer and float constants, saturating ones), uintN/intN(k) == c "
         "for the 12 readers with truncation variants, `$p at 0` literals, opaque operands, nested `and`, next to the twin `not not (cond)`, 3 buffers, "
         "with the tables the compiler attached to the patterns; 20 % scan cases: rule sets of 1-4 rules (Teddy) and 40-70 rules (> 64 atoms, Aho-Corasick), "
-        "text/hex/regexp patterns incl. 1-3 byte atoms and alternatives found out of offset order, shared pattern texts, every kind of use "
+        "text/hex/regexp patterns incl. 1-3 byte atoms, alternatives found out of offset order and literal alternatives with a common prefix and different lengths (regexp and hex, both orders, optional suffix), shared pattern texts, every kind of use "
         "($p, #p, @p, !p, at, in, N of, of..in, for..of, loops with invariants, rule references, filesize/header conjuncts), buffers of 8, 19-64 and 4096+ bytes, "
         "x condition_optimization on/off x fast_scan on/off x Teddy on/off; 1/8 extra: `or` chains of 2-6 `matches` whose left operands are the same or different "
         "globals, `with` identifiers, loop variables, module fields, function calls and literals (optionally inside `with` / `for any .. in`), regexps aimed at the "
@@ -235,10 +235,8 @@ MANIFEST = {
                    "conditions, rule sets and buffers across condition_optimization, fast_scan and Teddy on/off in one build, and across cargo "
                    "feature sets (no optimisation features, pulley, no exact-atoms, no fast-regexp) in the thorough tier."),
     "level_note": ("Trusted: Coq kernel, translators gen_fold/gen_bounds/gen_fastscan, harness, hook verif_c03. Repaired after this check found them: "
-                   "folding through f64 (8b83ae6a), fast scan changing verdicts of `N of (..) in (..)` (2deda6b6); their reproductions stay in the corpus. IR::minus folds with wrapping_neg since 1eeaceb7 (flag minus_wraps regenerated). "
-                   "Known findings: fast scan keeps the first match it verifies, which is not always the lowest one; the expression of a percentage quantifier is not "
-                   "visited by the IR traversal, so hoisting / shift_vars ignore the loop variables in it (patch fixes/C03-1); `#` `@` `!` `$` of a for..of nested in a "
-                   "for..in are hoisted above the for..of (patch fixes/C03-2). Grouping of `matches` operands into regexp sets and the variable renumbering of hoisting are "
+                   "folding through f64 (8b83ae6a), fast scan changing verdicts of `N of (..) in (..)` (2deda6b6), percentage-quantifier expressions skipped by the IR traversal (21a3d45e), `#` `@` `!` `$` hoisted above their for..of (560c1f82); their reproductions stay in the corpus. IR::minus folds with wrapping_neg since 1eeaceb7 (flag minus_wraps regenerated). "
+                   "Known findings: the length reported for literal alternatives with a common prefix (`/abc|ab/`, `{ (01 02 03 | 01 02) }`) depends on whether Aho-Corasick or the SIMD searcher offered the atoms (patch fixes/C03-3); fast scan keeps the first match it verifies, which is not always the lowest one. Grouping of `matches` operands into regexp sets and the variable renumbering of hoisting are "
                    "modelled (key soundness, shift injectivity; lists of variable-owning variants / shift_vars arms / traversed quantifiers regenerated by gen_hoist). "
                    "Exact-atoms, FastVM/PikeVM, pulley and the choice of hoisting candidates have no model: differential only. SIMD kernels not modelled."),
     "technique": "Coq proofs over source-generated models of each optimisation + differential scans across run-time toggles and cargo feature sets",
